@@ -98,9 +98,6 @@ func specFuncExtra(ex *Exec, name string) SpecFn {
 	return extraSpecFuncs[name]
 }
 
-func specMethodExtra(ex *Exec, recv CV, name string) SpecFn {
-	return nil
-}
 
 // protoStringModel: String() of a generated protobuf message (file *.pb.go) is a function of the message value.
 // (Trusted: the text marshaller is deterministic and injective on message values; nested messages are
@@ -221,4 +218,47 @@ func (W *World) nonNilGlobal(g *ssa.Global) bool {
 		}
 	}
 	return W.nonNilGlobals[g]
+}
+
+// coinType finds the Go type behind a coin datatype name (so that its SMT datatype is declared).
+func (W *World) coinType(dt string) types.Type {
+	name := "Coin"
+	if strings.HasSuffix(dt, "DecCoin") {
+		name = "DecCoin"
+	}
+	for _, p := range W.pkgs {
+		if imp := findImport(p.Types, "github.com/cosmos/cosmos-sdk/types", map[*types.Package]bool{}); imp != nil {
+			if o := imp.Scope().Lookup(name); o != nil {
+				return o.Type()
+			}
+		}
+	}
+	panic("cosmos-sdk types not among the dependencies of the loaded packages")
+}
+
+func findImport(p *types.Package, path string, seen map[*types.Package]bool) *types.Package {
+	if p == nil || seen[p] {
+		return nil
+	}
+	seen[p] = true
+	if p.Path() == path {
+		return p
+	}
+	for _, i := range p.Imports() {
+		if r := findImport(i, path, seen); r != nil {
+			return r
+		}
+	}
+	return nil
+}
+
+func specMethodExtra(ex *Exec, recv CV, name string) SpecFn {
+	f := ex.f
+	if recv.t.sort == ArraySort(SStr, SInt) {
+		switch name {
+		case "AmountOf":
+			return func(ctx *EvalCtx, args []CV) CV { return CV{f.Select(args[0].t, args[1].t), nil} }
+		}
+	}
+	return nil
 }
